@@ -17,7 +17,8 @@ def main():
         mir, info = get_mir()
         P = Program(mir)
         env = Q.Env(P, spec.get("tier", "quick"))
-        fn = getattr(Q, "q_" + spec["q"])
+        from mirsym import queries_sig as QS
+        fn = getattr(Q, "q_" + spec["q"], None) or getattr(QS, "q_" + spec["q"])
         kw = {k: v for k, v in spec.items() if k not in ("q", "tier")}
         qr = fn(env, **kw)
         res.update(qr.as_dict())
